@@ -37,7 +37,7 @@ SR = r"<&\[u8\] as std::(io::)?Read>::read"
 
 def run(ctx, progs):
     ctx.explanation = EXPLANATION
-    for r, t in (("IO1", "never Err"), ("IO2", "write/flush shapes"), ("IO3", "read/fill_buf shapes"), ("IO4", "consume = drain(..min(amt, len))"), ("MOD1", "capacity zero")):
+    for r, t in (("IO1", "never Err"), ("IO2", "write/flush shapes"), ("IO3", "read/fill_buf shapes"), ("IO4", "consume = drain(..min(amt, len))"), ("MOD1", "capacity zero"), ("DRN1", "consume relies on Drain::drop: droppers -> restore -> return on every path")):
         ctx.rule(r, t)
     ctx.assumptions.append("<&[u8] as std::io::Read>::read is infallible and copies min(len) bytes (std source)")
     for cfg, prog in progs.items():
@@ -48,6 +48,11 @@ def run(ctx, progs):
         eng = shared.run_mod1(prog)
         n = shared.report_requires(ctx, eng, "MOD1", cfg, entry_filter=lambda s: s.startswith("<CircularBuffer<N, u8> as std::"))
         ctx.floor("MOD1", "sites reachable from the io entries", n, 8, cfg)
+        # consume(amt) is `drain(..amt)` dropped at once: what stays in the buffer is decided by Drain::drop
+        # (droppers -> back-fill -> restore of size on every path)
+        from . import c05
+
+        c05.drn1_de(ctx, prog, cfg)
 
 
 def io1(ctx, prog, cfg):
